@@ -39,9 +39,10 @@ I = lambda n: ["integer", n]
 Q = lambda a, b: gen._rat(a, b)
 L = lambda *a: ["list"] + list(a)
 CSE_TEMP = re.compile(r"^x[0-9]+$")
-# VERIF_C13_REPORT_KNOWN=1: report the two known findings as violations instead of skipping the affected
-# sub-cases (used to check that replays/known/C13-*.json still fail, i.e. that the defects are still there)
-REPORT_KNOWN = bool(os.environ.get("VERIF_C13_REPORT_KNOWN"))
+# known-finding tags (GUIDE "Known findings protocol"): an exclusion is applied iff self.tag_active(tag)
+TAG_TEMP = "cse_temp_named_like_unused_input"        # KF-C13-01
+TAG_STALE = "stale_cse_map_after_throwing_init"      # KF-C13-02
+TAG_GAMMA = "gamma_half_integer_int_overflow"        # gamma_multiple_2 `int` product (crasher at construction)
 
 
 def numbers(cmode):
@@ -223,14 +224,14 @@ class C13(Check):
             "same init is given to a fresh visitor (must behave identically: throws iff throws, outputs bit-equal) "
             "and to a fresh visitor with the opposite cse flag (outputs agree to max(1e-12 rel, 2 tol)); every output "
             "is compared with the mpmath value of the constructed output at the input vector, tolerance 64*2^-53*E "
-            "(E: first-order error mass over all rounding points, kappa>1e4 skipped).  Known findings KF-C13-01 (CSE "
-            "temporary named like an unused input) and KF-C13-02 (stale temporary map after a throwing cse init) are "
-            "matched narrowly and counted under skipped['known:*'].  Non-trivial: a step with >= 2 outputs sharing "
+            "(E: first-order error mass over all rounding points, kappa>1e4 skipped).  Known findings (tags "
+            "cse_temp_named_like_unused_input, stale_cse_map_after_throwing_init, gamma_half_integer_int_overflow) are "
+            "excluded narrowly only while their tag is active, counted under skipped['known:*'].  Non-trivial: a step with >= 2 outputs sharing "
             "a non-atomic sub-expression, or a history with >= 2 successful inits; distinct by case.")
     assumptions = ["mpmath principal branches are the reference (DESIGN 3.5)",
                    "glibc libm accurate to a few ulp (factor 64)",
                    "an init that throws declines; a call is only issued after a successful init"]
-    tiers = {"quick": {"examples": 2400, "shrink_calls": 80}, "thorough": {"examples": 80000, "shrink_calls": 150}}
+    tiers = {"quick": {"examples": 1600, "shrink_calls": 80}, "thorough": {"examples": 80000, "shrink_calls": 150}}
     min_nontrivial = 2
 
     def enumerate(self, tier):
@@ -291,8 +292,8 @@ class C13(Check):
     def judge(self, case):
         kind = case["kind"]
         cm = kind == "complex"
-        if any(en.gamma_half_integer_risk(o) for st_ in case["steps"] for o in st_["outs"]):
-            self.skip("known:gamma_multiple_2_int_overflow(pre-excluded crasher, C08)")
+        if self.tag_active(TAG_GAMMA) and any(en.gamma_half_integer_risk(o) for st_ in case["steps"] for o in st_["outs"]):
+            self.skip("known:" + TAG_GAMMA)     # crasher: not sent to the driver while the finding is open
             return
         stmts = [["lam_new", kind]]
         plan = []
@@ -348,8 +349,8 @@ class C13(Check):
                     free_symbols(d, fs0)
                 extra = fs0 - set(step["syms"])
                 if was_stale and not is_exc(rv) and extra and all(CSE_TEMP.match(n) for n in extra) \
-                        and not REPORT_KNOWN:
-                    self.skip("known:stale_cse_map_after_throwing_init")
+                        and self.tag_active(TAG_STALE):
+                    self.skip("known:" + TAG_STALE)
                     continue
                 raise Violation("init #%d (%s) on the re-used visitor %s but on a fresh visitor %s; outputs %s"
                                 % (case["steps"].index(step), tag, "throws %s" % rv if is_exc(rv) else "succeeds",
@@ -436,8 +437,8 @@ class C13(Check):
                         tol = ref.tol_abs(64)
                         bad = (not all(finite(q) for q in parts)) or not on.close(g, ref.value, 0, tol)
                         if bad:
-                            if collide and step["cse"] and not REPORT_KNOWN:
-                                self.skip("known:cse_temp_named_like_unused_input")
+                            if collide and step["cse"] and self.tag_active(TAG_TEMP):
+                                self.skip("known:" + TAG_TEMP)
                             else:
                                 raise Violation("output %d of init(%s) at %s = %r but the expression %s has the value %s "
                                                 "(tol %.3g, kappa %.3g); inputs %s"
@@ -460,8 +461,8 @@ class C13(Check):
                         okp = all(finite(q) for q in pa + pb) and \
                             abs(a - b) <= max(1e-12 * max(abs(a), abs(b)), float(2 * ref.tol_abs(64)))
                         if not okp:
-                            if collide and not REPORT_KNOWN:
-                                self.skip("known:cse_temp_named_like_unused_input")
+                            if collide and self.tag_active(TAG_TEMP):
+                                self.skip("known:" + TAG_TEMP)
                             else:
                                 raise Violation("output %d at %s: cse=%s gives %r, cse=%s gives %r (value %s); output %s; inputs %s"
                                                 % (j, x, step["cse"], a, not step["cse"], b, ref.value, d, step["syms"]),
